@@ -78,3 +78,6 @@ def run(ctx):
     for c in list(idx.values())[:1]:
         ctx.sample({"kind": "concurrent", "case": c["case"], "calls": [(x["g"], x["index"], x["unique"], x["ret"]) for x in c["calls"]][:20],
                     "post": {k: c["post"][k] for k in ("queued", "sent", "received", "qIdx", "sIdx", "rIdx", "rp")}})
+    if not ctx.quick():
+        # the repository's own 275 tests, run with the trace hook: every transition they execute is judged
+        stages.repo_suite_traces(ctx, ["C07."])
